@@ -723,6 +723,202 @@ class ThreadSuite(Suite):
         return st
 
 
+class StepSuite(ThreadSuite):
+    """interleavings at lock-region granularity, thread mode and thread-pool mode: every acquisition of the scheduler
+    mutex by the worker is a stall point, `w` lets it run one lock region, public calls (sleep / cancel / remove / adv /
+    destroy) run in between; `free` ends the stepping and the worker runs to its wait as in the thread suite"""
+    name = "worker-lock-regions"
+    corpus_prefix = "c12step_"
+    chunk = 25
+    nontrivial_rule = "a public call ran while the worker stood in front of the scheduler mutex and the worker parked afterwards"
+
+    KINDS = ["thrstep", "poolstep 1", "poolstep 2", "poolstep 3"]
+
+    def systematic(self):
+        """a public call injected in front of each of the worker's first lock acquisitions"""
+        out = []
+        injects = [["sleep 5 2"], ["cancel 1"], ["sleep 3 2", "adv 4"], ["sleep 12 2"], ["adv 10"], []]
+        for kind in self.KINDS:
+            for base in ([], ["sleep 10 1"], ["sleep 10 1", "sleep 20 3"]):
+                for k in range(0, 7):
+                    for inj in injects:
+                        for tail in (["w"] * 4 + ["free", "adv 30"], ["w"] * 2, ["w"] * 3 + ["sleep 1 4", "w", "w", "free", "adv 30"]):
+                            out.append({"id": 0, "lines": ["case 0 " + kind] + base + ["w"] * k + inj + tail + ["end"]})
+        return out
+
+    def gen_case(self, rng):
+        lines = ["case 0 " + rng.choice(self.KINDS)]
+        nid = rng.choice([1, 2, 3])
+        span = rng.choice([3, 8, 20])
+        clock = 0
+        freed = False
+        p_w = rng.choice([0.3, 0.45, 0.6])
+        for k in range(rng.randint(4, 45)):
+            r = rng.random()
+            if not freed and r < p_w:
+                lines.append("w")
+                continue
+            r = rng.random()
+            if r < 0.45:
+                tp = max(0, clock - rng.randint(0, 3)) if rng.random() < 0.12 else clock + rng.randint(0, span)
+                lines.append("%s %d %d" % ("sleep" if rng.random() < 0.85 else "sched", tp, rng.randint(0, nid)))
+            elif r < 0.62:
+                clock += rng.randint(0, span)
+                lines.append("adv %d" % clock)
+            elif r < 0.76:
+                lines.append("cancel %d" % rng.randint(0, nid))
+            elif r < 0.82:
+                lines.append("cancelx %d %d" % (rng.randint(0, nid), rng.randint(1, 9)))
+            elif r < 0.90:
+                lines.append("remove %d" % rng.randint(0, nid))
+            elif r < 0.94:
+                lines.append("dump")
+            elif not freed:
+                lines.append("free")
+                freed = True
+        if rng.random() < 0.5:
+            if not freed:
+                lines.append("free")
+            lines.append("adv %d" % (clock + span + 5))
+        if rng.random() < 0.15:
+            lines.append("destroy")
+        lines.append("end")
+        return {"id": 0, "lines": lines}
+
+    def gen_cases(self, rng, tier):
+        n = 700 if tier == "quick" else 60000
+        sysm = self.systematic()
+        if tier == "quick":
+            sysm = [sysm[i] for i in sorted(rng.sample(range(len(sysm)), 500))]
+        return sysm + [self.gen_case(rng) for _ in range(n)]
+
+    def oracle(self, case, out):
+        msgs = []
+
+        def bad(cat, txt):
+            msgs.append("%s: %s" % (cat, txt))
+
+        ops = [l for l in case["lines"][1:] if l.split()]
+        pend = {}      # k -> (tp, id, clock when scheduled)
+        clock = 0
+        nsleep = 0
+        freed = None   # clock at which the stepping ended
+        for op, line in zip(ops, out):
+            w = op.split()
+            head, evs = parse_line(line)
+            if head and head[0] == "FATAL":
+                bad("hang", " ".join(head[1:]))
+                break
+            status = None
+            if head and head[-1].startswith("w="):
+                status = head[-1][2:]
+                head = head[:-1]
+            parsed = []
+            for e in evs:
+                m = re.match(r"sleep#(\d+)=([^@]*)@(\d+)$", e)
+                if not m:
+                    bad("protocol", "unparsable event %s" % e)
+                    continue
+                parsed.append((int(m.group(1)), m.group(2), int(m.group(3))))
+            cancelled_here = None
+            if w[0] in ("sleep", "sched"):
+                m = re.match(r"sleep#(\d+)$", head[0])
+                if not m or int(m.group(1)) != nsleep:
+                    bad("protocol", "unexpected sleep index in `%s`" % line)
+                    break
+                pend[nsleep] = (int(w[1]), int(w[2]), clock)
+                nsleep += 1
+            elif w[0] in ("cancel", "cancelx", "remove"):
+                ident = int(w[1])
+                want = "canceled" if w[0] == "cancel" else ("exc:%s" % w[2] if w[0] == "cancelx" else "ok")
+                cands = [k for k, (tp, i, t) in pend.items() if i == ident]
+                hit = [(k, o, c) for (k, o, c) in parsed if k in cands and o == want]
+                if cands:
+                    if head[1] != "1":
+                        bad("cancel-miss", "%s(%d) reported false although sleep#%s is pending with that identifier" % (w[0], ident, cands))
+                    if len(hit) != 1:
+                        bad("cancel-count", "%s(%d) completed %d sleeps with that identifier, expected exactly one" % (w[0], ident, len(hit)))
+                    if hit:
+                        cancelled_here = hit[0][0]
+                elif head[1] != "0":
+                    bad("cancel-false", "%s(%d) reported true with nothing pending under that identifier" % (w[0], ident))
+            elif w[0] == "dump":
+                live = sorted(x.rsplit(":", 1)[0] for x in head[2:] if x.endswith(":1"))
+                want = sorted("%d:%d" % (tp, i) for (tp, i, t) in pend.values())
+                if live != want:
+                    bad("state", "live entries of the vector %s differ from the pending sleeps %s" % (live, want))
+            elif w[0] == "adv":
+                clock = max(clock, int(w[1]))
+            elif w[0] == "free" and freed is None:
+                freed = clock
+            for (k, o, c) in parsed:
+                if k not in pend:
+                    bad("duplicate", "sleep#%d completed (%s) but is not pending: completed twice or never scheduled" % (k, o))
+                    continue
+                tp, ident, t0 = pend.pop(k)
+                if w[0] in ("end", "destroy"):
+                    if o != "canceled":
+                        bad("outcome", "sleep#%d pending at destruction completed with %s" % (k, o))
+                elif k == cancelled_here:
+                    pass
+                elif o == "ok":
+                    if c < tp:
+                        bad("early", "sleep#%d until %d completed at %d" % (k, tp, c))
+                    elif freed is not None and c != max(tp, t0, freed):
+                        bad("late", "sleep#%d until %d (scheduled at %d, worker running freely since %d) was completed at %d"
+                            % (k, tp, t0, freed, c))
+                else:
+                    bad("outcome", "sleep#%d completed with %s during `%s`" % (k, o, op))
+            # the invariant of c12_worker_not_late observed on the real worker: parked => its deadline is not later than
+            # any pending sleep (an earlier sleep scheduled meanwhile must have woken it)
+            if status is not None and status.startswith("parked:"):
+                d = INF if status == "parked:max" else int(status[7:])
+                stale = sorted(k for k, (tp, i, t) in pend.items() if tp < d)
+                if stale:
+                    bad("late", "the worker is parked in wait_until(%s) although sleep#%s with an earlier time point (%s) is pending: "
+                        "it will be woken late%s" % (status[7:], stale, [pend[k][0] for k in stale], " or never" if d == INF else ""))
+            elif status == "gone" and w[0] not in ("end", "destroy"):
+                bad("hang", "the worker is neither running nor parked")
+            if w[0] == "adv" and freed is not None:
+                late = [k for k, (tp, i, t) in pend.items() if tp <= clock]
+                if late:
+                    bad("late", "at clock %d the sleeps %s are due but still pending" % (clock, late))
+            if w[0] in ("end", "destroy"):
+                if pend:
+                    bad("hang", "sleeps %s are still pending after the scheduler was destroyed" % sorted(pend))
+                break
+        return msgs
+
+    def nontrivial(self, case, out):
+        seen_lock_call = False
+        for op, l in zip([x for x in case["lines"][1:] if x.split()], out):
+            if op.split()[0] in ("sleep", "sched", "cancel", "cancelx", "remove", "adv") and l.split(" ; ")[0].endswith("w=lock"):
+                seen_lock_call = True
+            if seen_lock_call and "w=parked" in l:
+                return True
+        return False
+
+    def stats(self, cases, outs):
+        st = {"thread_mode_cases": 0, "pool_mode_cases": 0, "worker_steps": 0, "calls_while_worker_at_mutex": 0,
+              "calls_while_worker_parked": 0, "parked_observations": 0, "woken_by_worker": 0, "destroyed_while_stepping": 0, "ops": {}}
+        for c in cases:
+            st["thread_mode_cases" if c["lines"][0].split()[2] == "thrstep" else "pool_mode_cases"] += 1
+            ops = [x for x in c["lines"][1:] if x.split()]
+            st["destroyed_while_stepping"] += "free" not in ops
+            for op, l in zip(ops, outs.get(str(c["id"]), [])):
+                k = op.split()[0]
+                st["ops"][k] = st["ops"].get(k, 0) + 1
+                h = l.split(" ; ")[0]
+                if k == "w":
+                    st["worker_steps"] += 1
+                elif k in ("sleep", "sched", "cancel", "cancelx", "remove", "adv"):
+                    st["calls_while_worker_at_mutex"] += h.endswith("w=lock")
+                    st["calls_while_worker_parked"] += "w=parked" in h
+                st["parked_observations"] += "w=parked" in h
+                st["woken_by_worker"] += l.count("=ok@")
+        return st
+
+
 class StopRaceSuite(Suite):
     """~scheduler() in thread mode while the worker is between its stop check and its wait_until (the harness stalls the
     worker's clock read, which sits exactly there): the stop request must not be lost"""
@@ -797,7 +993,7 @@ class C12(Spec):
                    "time points and identifiers are modelled as unbounded naturals (no clock overflow)"]
 
     def suites(self):
-        return [ManualSuite(), RunSuite(), ThreadSuite(), StopRaceSuite()]
+        return [ManualSuite(), RunSuite(), ThreadSuite(), StepSuite(), StopRaceSuite()]
 
 
 SPEC = C12()
